@@ -55,7 +55,8 @@ type Solver struct {
 	log       io.Writer
 	prelude   string
 	// mirror of the assertion stack for restart
-	frames [][]string
+	frames   [][]string
+	restarts int
 }
 
 func NewSolver(kind SolverKind, timeoutMs int, stats *SolverStats, prelude string) (*Solver, error) {
@@ -94,6 +95,11 @@ func (s *Solver) start() error {
 	} else {
 		s.send(fmt.Sprintf("(set-option :tlimit-per %d)", s.timeoutMs))
 		s.send("(set-logic ALL)")
+	}
+	if s.restarts > 0 && strings.HasPrefix(s.kind.Name, "z3") {
+		// a retry after a time-out also varies the search
+		s.send(fmt.Sprintf("(set-option :smt.random_seed %d)", s.restarts))
+		s.send(fmt.Sprintf("(set-option :sat.random_seed %d)", s.restarts))
 	}
 	s.send("(set-option :produce-models true)")
 	s.send("(declare-sort U 0)")
@@ -197,15 +203,29 @@ func (s *Solver) Assert(t *Term) {
 	s.record("(assert " + t.String() + ")")
 }
 
-// Check runs check-sat on the current stack.
+// Check runs check-sat on the current stack. An "unknown" (time-out) answer of the incremental
+// process is retried in a FRESH process that is given only the current assertion stack: whether an
+// instance is hard for z3 depends on what the process learnt from earlier, unrelated queries.
 func (s *Solver) Check() Result {
+	r := s.check1()
+	for try := 0; r == Unknown && try < 2; try++ {
+		s.restart()
+		r = s.check1()
+		if r != Unknown {
+			atomic.AddInt64(&s.Stats.Unknown, -int64(try+1))
+		}
+	}
+	return r
+}
+
+func (s *Solver) check1() Result {
 	start := time.Now()
 	s.send("(check-sat)")
 	line, err := s.readLine(time.Duration(s.timeoutMs)*time.Millisecond + 2*time.Second)
 	atomic.AddInt64(&s.Stats.Queries, 1)
 	atomic.AddInt64(&s.Stats.Nanos, int64(time.Since(start)))
 	if err != nil {
-		s.restart()
+		fmt.Fprintf(os.Stderr, "SOLVER-UNKNOWN %s: %v after %v\n", s.kind.Name, err, time.Since(start))
 		atomic.AddInt64(&s.Stats.Unknown, 1)
 		return Unknown
 	}
@@ -220,6 +240,8 @@ func (s *Solver) Check() Result {
 		// "unknown", "timeout" or an "(error" line: inconclusive
 		if strings.Contains(line, "(error") {
 			fmt.Fprintf(os.Stderr, "SOLVER-ERROR %s: %s\n", s.kind.Name, strings.TrimSpace(line))
+		} else {
+			fmt.Fprintf(os.Stderr, "SOLVER-UNKNOWN %s: answered %q after %v\n", s.kind.Name, strings.TrimSpace(line), time.Since(start))
 		}
 		atomic.AddInt64(&s.Stats.Unknown, 1)
 		return Unknown
@@ -259,6 +281,7 @@ func (s *Solver) readLine(d time.Duration) (string, error) {
 
 func (s *Solver) restart() {
 	atomic.AddInt64(&s.Stats.Restarts, 1)
+	s.restarts++
 	frames := s.frames
 	if s.cmd != nil {
 		s.cmd.Process.Kill()
